@@ -619,6 +619,8 @@ func init() {
 							for _, e := range x.Edges {
 								walk(e, d+1)
 							}
+						case *ssa.Extract:
+							walk(x.Tuple, d+1)
 						case *ssa.Call:
 							if sc := x.Call.StaticCallee(); sc != nil && c.inRoot(sc) && fnName(sc) != "mergeStoredAndRemap" {
 								cands = append(cands, sc)
@@ -975,6 +977,31 @@ func init() {
 					}
 					ok = true
 				}
+				// or: Add itself hands back the in-block offset of the record it appended - taken
+				// from the block buffer before anything that can start a new block - and that
+				// result is what is recorded under the document number
+				if !ok {
+					if call, isCall := site.(*ssa.Call); isCall {
+						if res := tupleParts(call)[0]; res != nil && res.Type().String() == "uint64" {
+							stored := false
+							for _, ref := range *res.Referrers() {
+								if st, isSt := ref.(*ssa.Store); isSt && st.Val == ssa.Value(res) {
+									if ia, isIA := st.Addr.(*ssa.IndexAddr); isIA && stripConv(ia.Index) == stripConv(site.Common().Args[1]) {
+										stored = true
+									}
+								}
+							}
+							if !stored {
+								why = "the offset Add returns is not recorded under the document number that was added"
+							} else if w := addReturnsOffsetBeforeNewBlock(c, add); w != "" {
+								why = w
+							} else {
+								r.ok(key, fnName(fn), c.pos(site.Pos()), "offsets[docNum] = the in-block offset coder.Add(docNum, …) returns, taken before a new block can start")
+								continue
+							}
+						}
+					}
+				}
 				if ok {
 					r.ok(key, fnName(fn), c.pos(site.Pos()), "offsets[docNum] = coder.Size() immediately before coder.Add(docNum, …)")
 				} else {
@@ -983,6 +1010,66 @@ func init() {
 			}
 		},
 	})
+}
+
+// addReturnsOffsetBeforeNewBlock: the uint64 that Add returns on success is
+// computed from the length of the coder's block buffer by an instruction that
+// runs before every call (newLine, flush …) that can reset that buffer; ""
+// when so, else why not.
+func addReturnsOffsetBeforeNewBlock(c *Ctx, add *ssa.Function) string {
+	resets := func(f *ssa.Function) bool {
+		for g := range c.reach([]*ssa.Function{f}) {
+			for _, call := range callsOfFull(g, "bytes.(*Buffer).Reset") {
+				if exprSig(call.Call.Args[0], 0) == ".buf" {
+					return true
+				}
+			}
+		}
+		return false
+	}
+	for _, rb := range maySucceedReturns(add) {
+		ret := rb.Instrs[len(rb.Instrs)-1].(*ssa.Return)
+		v := stripConv(resolveLoad(ret.Results[0]))
+		// the buffer-length reading(s) the value is computed from
+		var lens []*ssa.Call
+		var walk func(x ssa.Value, d int)
+		walk = func(x ssa.Value, d int) {
+			if d > 6 {
+				return
+			}
+			switch y := stripConv(x).(type) {
+			case *ssa.BinOp:
+				walk(y.X, d+1)
+				walk(y.Y, d+1)
+			case *ssa.Call:
+				if sc := y.Call.StaticCallee(); sc != nil && funcFullName(sc) == "bytes.(*Buffer).Len" {
+					lens = append(lens, y)
+				}
+			case *ssa.Phi:
+				for _, e := range y.Edges {
+					walk(e, d+1)
+				}
+			}
+		}
+		walk(v, 0)
+		if len(lens) == 0 {
+			return "what Add returns is not computed from the length of its block buffer"
+		}
+		for _, ln := range lens {
+			for _, b := range add.Blocks {
+				for _, ins := range b.Instrs {
+					call, ok := ins.(*ssa.Call)
+					if !ok || call.Call.StaticCallee() == nil || !c.inRoot(call.Call.StaticCallee()) {
+						continue
+					}
+					if resets(call.Call.StaticCallee()) && canExecuteAfter(call, ln) {
+						return "Add computes the offset it returns from the block buffer at " + c.pos(ln.Pos()) + ", after " + fnName(call.Call.StaticCallee()) + " (which starts a new block when this one is full and empties the buffer): the last record of every full block gets a wrong offset"
+					}
+				}
+			}
+		}
+	}
+	return ""
 }
 
 // inductionFromZero: v takes the values 0,1,2,… over the iterations of the loop
